@@ -166,7 +166,7 @@ def build(spec):
                 kw["reset_less"] = bool(spec["reset_less"])
             m.submodules.dut = _cdc.FFSynchronizer(inp.expr, out, stages=stages, **kw)
         elif prim == "async":
-            out = Signal(1, name="out")
+            out = Signal(1, name="out", reset_less=bool(spec.get("o_rl", False)))
             m.submodules.dut = _cdc.AsyncFFSynchronizer(inp.expr, out, stages=stages,
                                                         async_edge=spec.get("edge", "pos"), **od)
         elif prim == "reset":
